@@ -341,9 +341,14 @@ class C10(Prop):
                     reg0[f"w-{i}-{j}"] = w0[0]
                 if resumed and snap_t is not None:
                     t0 = [x["t"] for e, x in recs if e["seg"] == 0 and x["res"] == "timeout"]
-                    again = [x for e, x in recs if e["seg"] == 1 and x["res"] in ("waiting", "got")]
+                    again = [(e, x) for e, x in recs if e["seg"] == 1 and x["res"] in ("waiting", "got")]
                     if t0 and min(t0) < snap_t and again:
-                        r.v("timed_out_wait_waits_again_after_resume", then=again[0]["res"])
+                        # the known double run after a resume (the re-delivered input AND a replay started by an event that resolved the
+                        # restored waiter): the second of them finds the step completed and its waiters deleted, and starts from scratch
+                        e_a = again[0][0]
+                        done_before = any(e2["seg"] == 1 and e2["exit"] == "returned" and e2["s_in"] < e_a["s_in"] for e2 in ents)
+                        r.v("timed_out_wait_waits_again_after_resume", then=again[0][1]["res"], resumed=True, life=1, req_wait_pending_at_snapshot=rp,
+                            input_already_completed_in_resumed_life=done_before)
                 if resumed:
                     continue
                 # ---- timing clauses (uninterrupted runs only)
